@@ -512,14 +512,13 @@ Model: `GqlModel/Normalize.lean` (`normalizeDocument`, `normalizeOperation`, `no
 `tryExtract`, `lti` = `literalToInput`, `nextName`), tied to /repo on every run by comparing the printed normalised
 document and the SynthArgs of the real `normalizeDocument` with the model on every pool request.
 
-Premises the theorems need, and why (each is a way the REAL normaliser is not transparent today, reproduced on
-/repo — D-06h, D-06i, D-06j in notes/agents/C06.md — or a fact owned by another property):
-* `ArgsOK`: every variable-free argument literal is VALID for its argument type (what ArgumentsOfCorrectType checks on
-  the ORIGINAL document; `Get` validates only the normalised one, and `tryExtract` only asks `valueFromAST != nil`,
-  so `{ echo(l: ["5"]) }` is served although `Do` rejects it — D-06h) and spells its integers canonically
-  (`echo(id: -0)` answers "0" instead of "-0" — D-06i);
-* `UserOK`: the user's own variables evaluate alike with and without the synthetic ones (fails only when the
-  document USES an undefined variable named `__pcvN`, which a synthetic definition then captures — D-06j);
+Premises the theorems need (after the repairs of D-06h/i/j, 4210b3d 54b00d5 80085fd, which the model follows):
+* `ArgsOK`: Int tokens of variable-free argument literals have the lexer's shape `-?digits` (a premise only because the
+  model's `Value.int` can hold any text). VALIDITY of extracted literals is no premise any more: `tryExtract` checks
+  `isValidLiteralValue` before extracting, and `-0` stays text;
+* `UserOK`: the user's own variables evaluate alike with and without the synthetic ones — by `userOK_of_agree` it is
+  enough that the two variable maps agree on the variables the argument list mentions, which holds because synthetic
+  names avoid every variable name occurring in the document (`synth_names_fresh`);
 * `KeySound`: equal `(type, printed literal)` keys denote literals that evaluate alike (printer round trip, C08);
 * `customLti`: a custom scalar's ParseLiteral / ParseValue agree on a literal and its client form (user code);
 * `Realises`: the variable map of the normalised request holds, for each synthetic variable, the coerced client
@@ -566,28 +565,47 @@ theorem normalize_args_transparent (s : Schema) (hcc : customLti s) (hks : KeySo
   rw [normArgs_lookup s hcc hks defs vars vars' as st hes ha hu hre d.name d (find_of_nodup defs hnd d hd)]
 
 /-- **synth_names_fresh.** The synthetic variables of an operation never clash with a variable the operation defines
-and are pairwise distinct. -/
-theorem synth_names_fresh (s : Schema) (root : String) (vars : List VarDef) (sel : SelectionSet) :
-    (∀ e ∈ (normSet s root sel (initState vars)).2.entries, e.name ∉ userVarNames vars) ∧
-    ((normSet s root sel (initState vars)).2.entries.map (·.name)).Nodup := by
-  have h0 : NamesOK (initState vars) := by
+nor with any variable name occurring anywhere in the document (`docNames = docVarNames doc`: definitions and uses,
+all operations and fragments — so an undefined `$__pcvN` cannot be captured), and are pairwise distinct. -/
+theorem synth_names_fresh (s : Schema) (root : String) (vars : List VarDef) (docNames : List String) (sel : SelectionSet) :
+    (∀ e ∈ (normSet s root sel (initState vars docNames)).2.entries,
+        e.name ∉ userVarNames vars ∧ e.name ∉ docNames) ∧
+    ((normSet s root sel (initState vars docNames)).2.entries.map (·.name)).Nodup := by
+  have h0 : NamesOK (initState vars docNames) := by
     unfold NamesOK
     exact ⟨by intro e he; simp [initState] at he, by simp [initState]⟩
-  obtain ⟨h1, h2⟩ := normSet_namesOK s sel root (initState vars) h0
+  obtain ⟨h1, h2⟩ := normSet_namesOK s sel root (initState vars docNames) h0
   refine ⟨fun e he => ?_, h1.2⟩
   have := (h1.1 e he).1
   rw [h2] at this
+  simp only [initState, List.mem_append, not_or] at this
   exact this
 
 /-- **normalize_preserves_shape.** Operation type, name, directives, the user's variable definitions (a prefix of the
 new list) and the whole selection structure — fields, aliases (response keys), argument names and order, directives,
 fragments spreads, inline fragments, locations — are unchanged; only argument VALUES may differ (`eraseSet` forgets
 exactly those). Fragment definitions are not touched at all (`normalizeDocument` replaces one definition). -/
-theorem normalize_preserves_shape (s : Schema) (root : String) (op : OpType) (name : Option Name) (vars : List VarDef)
-    (dirs : List Directive) (sel : SelectionSet) (loc : Loc) :
-    ∃ sel' newDefs, (normalizeOperation s root (.operation op name vars dirs sel loc)).1 =
+theorem normalize_preserves_shape (s : Schema) (root : String) (docNames : List String) (op : OpType) (name : Option Name)
+    (vars : List VarDef) (dirs : List Directive) (sel : SelectionSet) (loc : Loc) :
+    ∃ sel' newDefs, (normalizeOperation s root docNames (.operation op name vars dirs sel loc)).1 =
         .operation op name (vars ++ newDefs) dirs sel' loc ∧ eraseSet sel' = eraseSet sel :=
-  ⟨_, _, rfl, normSet_shape s sel root (initState vars)⟩
+  ⟨_, _, rfl, normSet_shape s sel root (initState vars docNames)⟩
+
+/-- `normalize_args_transparent` with `UserOK` discharged: it suffices that the two variable maps agree on the
+variables the argument list mentions. -/
+theorem normalize_args_transparent_of_agree (s : Schema) (hcc : customLti s) (hks : KeySound s)
+    (defs : List ArgDef) (hnd : (defs.map (·.name)).Nodup) (as : List Argument) (st : NState) (vars vars' : Vars)
+    (hes : EntriesOK s st.entries) (ha : ArgsOK s defs as)
+    (hagree : ∀ x ∈ argsVars as, lookupD vars' x = lookupD vars x)
+    (hre : Realises s vars' (normArgs s defs as st).2.entries) :
+    getArgumentValues s defs (normArgs s defs as st).1 vars' = getArgumentValues s defs as vars :=
+  normalize_args_transparent s hcc hks defs hnd as st vars vars' hes ha (userOK_of_agree s vars vars' as hagree) hre
+
+/-- every recorded literal IS valid for its type — by construction of `tryExtract`, not by assumption -/
+theorem extracted_literals_are_valid (s : Schema) (defs : List ArgDef) (as : List Argument) (st : NState)
+    (hes : EntriesOK s st.entries) (ha : ArgsOK s defs as) :
+    ∀ e ∈ (normArgs s defs as st).2.entries, isValidLiteralValue s e.type (some e.lit) = true :=
+  fun e he => (normArgs_entriesOK s defs as st hes ha e he).2.2
 
 /-- every literal the walk records is valid, so (by `literalToInput_agree`) every SynthArg is a valid value of its
 synthetic variable's declared type: `getVariableValues` cannot fail on them -/
@@ -613,8 +631,9 @@ Missing to compose it from the theorems above:
    result — an induction over Exec's fuel-recursive mutual functions, with the typing fact that the parent type the
    normaliser walks with is the runtime object type at which `Exec.fieldDef?` looks the field up (object-typed
    positions only; nothing is extracted below abstract types);
-3. the premises `ArgsOK` / `UserOK` for every field of the document from "the ORIGINAL document is valid"
-   (C02's rules), which the real `Get` does not check (D-06h, D-06j). -/
+3. threading the (now weak) premises through the whole walk: lexer-shaped Int tokens for every argument literal
+   (`ArgsOK`) and `argsVars as ⊆ docVarNames doc` for every field's argument list (so that `userOK_of_agree` applies with
+   `synth_names_fresh`). Validity of the original document is NOT needed any more. -/
 def NormalizedTransparent (s : Schema) : Prop :=
   ∀ (doc doc' : Document) (opName : String) (inputs synth : Vars) (w : Exec.World) (fuel : Nat),
     normalizeDocument s doc opName = .ok doc' synth →
@@ -635,22 +654,24 @@ def exArgs : List Argument := [⟨⟨"i", L0⟩, .int "3" L0, L0⟩, ⟨⟨"e", 
 def exSel : SelectionSet := .mk [.field none ⟨"echo", L0⟩ exArgs [] none L0] L0
 
 -- four literals, three synthetic variables (`i: 3` and `l: 3` have different types, hence different variables)
-example : (normSet exS "Query" exSel (initState [])).2.synth.map (·.1) = ["__pcv0", "__pcv1", "__pcv2", "__pcv3"] := by
+example : (normSet exS "Query" exSel (initState [] [])).2.synth.map (·.1) = ["__pcv0", "__pcv1", "__pcv2", "__pcv3"] := by
   decide +kernel
 -- the enum literal travels by NAME, the input object as a map without the defaulted field
-example : ((JVal.obj (normSet exS "Query" exSel (initState [])).2.synth) ==
+example : ((JVal.obj (normSet exS "Query" exSel (initState [] [])).2.synth) ==
     .obj [("__pcv0", .int 3), ("__pcv1", .str "GREEN"), ("__pcv2", .obj [("y", .int 1)]), ("__pcv3", .int 3)]) = true := by
   decide +kernel
 -- a user variable named __pcv0 is skipped
 example : (nextName ["__pcv0", "x", "__pcv1"] 0).1 = "__pcv2" := by decide +kernel
--- D-06h as a fact about the model: the invalid `["5"]` for [Int] is extracted, and its client form is ACCEPTED
+-- D-06h repaired: the invalid `["5"]` for [Int] is NOT extracted (although its client form would be accepted)
 example : isValidLiteralValue exS (.list (.named "Int")) (some (.list [.str "5" L0] L0)) = false ∧
-    (tryExtract exS (initState []) (.list [.str "5" L0] L0) (.list (.named "Int"))).2.entries.length = 1 ∧
+    (tryExtract exS (initState [] []) (.list [.str "5" L0] L0) (.list (.named "Int"))).2.entries.length = 0 ∧
     isValidInputValue exS (.list (.named "Int")) (lti (.list [.str "5" L0] L0)) = true := by decide +kernel
--- D-06i: `-0` for ID
-example : canonInts (.int "-0" L0) = false ∧
-    (coerceValue exS (.named "ID") (lti (.int "-0" L0)) == .str "0") = true ∧
+-- D-06i repaired: `-0` for ID stays text, so literal and client form agree
+example : canonInts (.int "-0" L0) = true ∧
+    (coerceValue exS (.named "ID") (lti (.int "-0" L0)) == .str "-0") = true ∧
     (valueFromAST exS (.named "ID") (some (.int "-0" L0)) [] == .str "-0") = true := by decide +kernel
+-- D-06j repaired: a variable the document merely uses is skipped
+example : (nextName (userVarNames [] ++ ["__pcv0"]) 0).1 = "__pcv1" := by decide +kernel
 end Examples
 
 end GqlModel.Normalize
